@@ -1,6 +1,7 @@
 import Driver.Wire
 import Ramses.Model.Limiter
 import Ramses.Gen.Consts
+import Ramses.Model.SyncAvoid
 namespace Driver
 open Ramses Ramses.Lim
 
@@ -48,6 +49,24 @@ def opsLim (op : String) (a : List String) : Option String :=
   | "lim.mqtt", [m, w, t0, offers] =>
     m.toNat?.bind fun M => w.toNat?.bind fun W => t0.toNat?.map fun t0 =>
       "ok\t" ++ ",".intercalate (mqTrace M W (Tok.init M W t0) (parsePairs offers))
+  | "sync.run", [evs] =>
+    -- "R:t:src:sync" an announcement heard at t; "W:t" a write offered at t  ->  per write "exit:polls"
+    let step (acc : List (Nat × Nat) × List String) (e : String) : List (Nat × Nat) × List String :=
+      match e.splitOn ":" with
+      | ["R", t, src, sync] =>
+        match t.toNat?, src.toNat?, sync.toNat? with
+        | some t, some src, some sync => (Sync.track t acc.1 src sync, acc.2)
+        | _, _, _ => acc
+      | ["W", t] =>
+        match t.toNat? with
+        | some t =>
+          match Sync.waitN 400 t (acc.1.map (·.2)) with
+          | some x => (acc.1, acc.2 ++ [s!"{x}:{(x - t) / Sync.waitShort}"])
+          | none => (acc.1, acc.2 ++ ["never"])
+        | none => acc
+      | _ => acc
+    let r := (if evs = "" then [] else evs.splitOn ";").foldl step ([], [])
+    some ("ok\t" ++ ",".intercalate r.2 ++ s!"\t{Sync.waitShort},{Sync.waitLong},{Sync.winLower},{Sync.winUpper}")
   | "lim.consts", [] =>
     some s!"ok\t{Gen.dutyFillRate}\t{Gen.dutyCapacity}\t{Gen.dutyWindow}\t{Gen.mqttMaxTokens}\t{Gen.mqttTimeWindow}\t{Gen.minInterWriteGapNs}"
   | _, _ => none
